@@ -33,6 +33,8 @@ structure Mem where
   next : Nat := 1               -- WalManager.next_op_version
   active : Option Nat := none   -- segment id of the active SegmentWriter
   preCreated : Bool := false    -- CasManager.dir_tree_is_pre_created
+  walBuf : Bytes := []          -- bytes retained in the active SegmentWriter's BufWriter after a failed flush
+  protectedFailed : List Bytes := []   -- hashes kept protected because their put's append failed (F4 repair)
   deriving Repr
 
 inductive OpenErr where
